@@ -83,6 +83,12 @@ def note(res, sc, r):
         res.count('executions_with_out_of_order_completion')
     res.seen(f"completion_orders:{sc['entry']}", co)
     res.maximum('max_enabled_threads', r['max_enabled'])
+    if not res.samples and r['max_enabled'] >= 2 and len(r['events']) >= 12:
+        # one real execution per shard, written out: who did what in which order
+        res.sample({'scenario': sc, 'schedule_policy': r.get('policy'),
+                    'choices_at_the_first_choice_points': r['choices'][:40],
+                    'event_trace (thread, event, arg)': [list(e) for e in r['events'][:48]]},
+                   force=True)
     if r['steplimit']:
         res.inconclusive_because(f'step limit hit in {sc!r}')
 
